@@ -190,6 +190,30 @@ func init() {
 	eng := &Engine{
 		Run: func(line string) string {
 			f := fields(line)
+			if f[0] == "tworld" {
+				// tworld <exit> <udp> <icmp>: a throw-away second agent configured with/without the exit features;
+				// peer 1 opens one relayed tunnel of every kind towards peer 2, then peer 1 disconnects.
+				// Prints the sizes (upstream+downstream index) of the three relay tables before and after.
+				w2 := c16NewWorldCfg(f[1] == "1", f[2] == "1", f[3] == "1")
+				defer w2.close()
+				w2.connect(1, false)
+				w2.connect(2, true)
+				for i, k := range []string{"tcp", "udp", "icmp"} {
+					agent.C16Process(w2.a, c16ID(1), &protocol.Frame{Type: c16Types[k]["open"], StreamID: uint64(2 + 2*i), Payload: c16OpenPayload(k, uint64(900+i), 2)})
+				}
+				cnt := func() string {
+					var parts []string
+					tcp, u, ic := agent.C16Tables(w2.a)
+					for _, tb := range []*agent.C16Table{tcp, u, ic} {
+						up, down := agent.C16Dump(tb)
+						parts = append(parts, fmt.Sprint(len(up)+len(down)))
+					}
+					return strings.Join(parts, "/")
+				}
+				before := cnt()
+				w2.disconnect(1)
+				return "before " + before + " after " + cnt()
+			}
 			if w == nil {
 				w = c16NewWorld()
 				t = agent.C16NewTable()
